@@ -34,10 +34,12 @@ def _run_child(binary, args, timeout):
     except subprocess.TimeoutExpired:
         raise MachineryError(f"race child timeout: {args}")
     reports = [r for r in vlib.parse_race_reports(p.stderr) if not r["site"].startswith("fatal:")]
-    m = re.search(r"fatal error: (concurrent map[^\n]*)\n(.*?)(?:\n\n|\Z)", p.stderr, re.S)
+    m = re.search(r"fatal error: (concurrent map[^\n]*)\n", p.stderr)
     if m:
+        # several goroutines may throw at once: the stack of the running goroutine follows the last message
+        g = re.search(r"\ngoroutine \d+[^\n]*\[running\]:\n(.*?)(?:\n\n|\Z)", p.stderr[m.start():], re.S)
         site = "(outside repo)"
-        for fm in re.finditer(r"^(\S+)\(.*\n\s+(\S+?):\d+", m.group(2), re.M):
+        for fm in re.finditer(r"^(\S+)\(.*\n\s+(\S+?):\d+", g.group(1) if g else "", re.M):
             fn, path = fm.group(1), fm.group(2)
             if "livesim2/" in path or "livesim2/" in fn or str(vlib.REPO) in path:
                 site = path.split("/")[-1] + ":" + fn.split(".")[-1].split("/")[-1]
@@ -178,9 +180,9 @@ def run(tier, replay=None):
     r, lines = c.validate_trace("ReceiverConc_Trace", trace, timeout=3000)
     events = vlib.read_ndjson(trace)
     # scenario context of every line + statistics measured on the trace
-    hdr_at, objs = {}, {}
+    hdr_at, objs, panics = {}, {}, {}
     cur = None
-    kinds, distinct, agree, samples, seen_ev = {}, set(), {"yes": 0, "no": 0, "aborted": 0}, [], set()
+    kinds, distinct, agree, samples, seen_ev = {}, set(), {"yes": 0, "fixed": 0, "no": 0, "aborted": 0}, [], set()
     for i, e in enumerate(events, 1):
         ev = e["ev"]
         seen_ev.add(ev if ev != "up" else "up:" + e["seg"])
@@ -192,11 +194,13 @@ def run(tier, replay=None):
                 samples.append({k: e[k] for k in ("kind", "nch", "ntr", "auth", "repcfg", "sender", "steps") if k in e})
         elif ev == "chan_created" and cur is not None:
             objs[(cur["sc"], e["ch"])] = objs.get((cur["sc"], e["ch"]), 0) + 1
+        elif ev == "up" and cur is not None and e["seg"] == "init" and e["status"] == 500 and e.get("body") == "":
+            panics[(cur["sc"], e["ch"])] = panics.get((cur["sc"], e["ch"]), 0) + 1
         elif ev == "end":
             a = e.get("agree", "na").split(":")[0]
             if a in agree:
                 agree[a] += 1
-                if a != "yes" and len(c.fidelity) < 8:
+                if a in ("no", "aborted") and len(c.fidelity) < 8:
                     c.fidelity.append(f"replay sc={cur['sc']}: {e['agree']}"[:400])
         if ev == "race":
             cur = None
@@ -211,6 +215,8 @@ def run(tier, replay=None):
         if h:
             per = [n for (sc, ch), n in objs.items() if sc == h["sc"] and (f.get("ch") in (None, ch))]
             f["chan_objects"] = max(per) if per else 0
+            # init uploads of this channel answered 500 with an empty body = panic caught by the router's Recoverer
+            f["init_panics"] = sum(n for (sc, ch), n in panics.items() if sc == h["sc"] and (f.get("ch") in (None, ch)))
         try:
             d = json.loads(f.get("detail") or "null")
             if isinstance(d, dict):
@@ -233,7 +239,8 @@ def run(tier, replay=None):
     c.distinct_nontrivial = len(distinct)
     c.samples = samples
     c.extra["scenarios"] = kinds
-    c.extra["replay_vs_explorer"] = agree
+    c.extra["replay_vs_explorer"] = dict(agree, _doc="yes: channel objects and failed first media uploads as the explorer (design as "
+                                         "written, Fixed=FALSE) predicts; fixed: as the explorer predicts with Fixed=TRUE")
     for e in events:
         if e["ev"] == "note":
             c.extra[e["what"]] = e["result"]
